@@ -151,4 +151,9 @@ theorem C10_decoded_dlg_wf (env : TEnv K) (kvs : List (Bytes × Node)) (t : Dlg)
   have hmin := C10_nonce_min.1
   exact ⟨by simp only at hlen ⊢; omega, cmdok cmd hcmd, bound "nbf" nbf hn, bound "exp" exp he⟩
 
+/-- the tables and constants this property's theorems are stated over were READ OFF the current source on this run (a fact
+that can no longer be read is replaced by its expected value so that the model keeps compiling; it is then listed in
+`Facts.notExtracted` and this theorem fails) -/
+theorem C10_facts_extracted : ∀ n ∈ ["dlgSchema", "invSchema", "dlgStructFields", "invStructFields", "dlgNonceMin", "invNonceMin", "dlgTag", "invTag", "maxInt53", "minInt53"], n ∈ Ucan.Facts.extracted := by decide
+
 end Ucan.Token
